@@ -114,3 +114,44 @@ Example C14_routing_example :
   route ex_cfg (install ex_cfg (routing_meta ex_tmeta)) None (Some 50) = DLocal [65; 58; 49] /\
   route ex_cfg (install ex_cfg (routing_meta ex_tmeta)) None (Some 5000) = DMoved 5000 [80; 58; 50].
 Proof. vm_compute. split; reflexivity. Qed.
+
+(* ---------- the same over broker histories (Proofs/TopoProofsBroker*.v) ----------
+   The Broker / Ranges / Route models define range, in_range, install, in_ranges, ... as well, so the composed statements are named
+   propositions of Proofs/TopoProofsBroker.v (unfold them there).  Ingredients:
+     meta_of_vproxy render v   what a proxy installs from the broker's per-proxy view v (coordinator/sync.rs: filter_proxy_masters,
+                               node_map / peer_node_map HashMaps = the route group's `install`, ProxyClusterMeta::new), as Topo.tmeta;
+                               `render` turns the broker model's numeric proxy / node identifiers into address strings
+     view_claims render a v    = claims (render a) (meta_of_vproxy render v)
+     reachable_any s           s is the result of ANY broker operation sequence (Proofs/BrokerTotal.v)
+   view_core_broker_stmt   forall render s lim a v, reachable_any s -> view_proxy lim s a = Some (Some v) ->
+                           wf_view_core (view_claims render a v) /\ (wf_view (view_claims render a v) <-> NoDup (view_claims render a v))
+                           wf_view_core = wf_view without its NoDup conjunct (Proofs/TopoProofsBrokerCore.v); the C14 conclusions are
+                           re-derived there from wf_view_core alone.  NoDup is NOT derivable: proxy_partition_ok + served_view_wf
+                           exclude every duplicate claim whose range list covers a slot, but a drained master keeps an EMPTY stable
+                           slot range after a scale-down, and two such masters on one proxy give the claim (proxy, [], None) twice.
+   unique_broker_stmt      C14_unique with hypotheses reachable_any s + the view equation only: every claimed slot, in particular
+                           every slot < 16384 of a proxy in a cluster, is advertised under exactly one address, for every state map
+                           and both NODES versions
+   migrating_broker_stmt   C14_migrating likewise: a MIGRATING entry (rl, m) visible in the view sits under vm_src_proxy m, its
+                           IMPORTING twin under vm_dst_proxy m, and every slot of rl is advertised at render (vm_src_proxy m) iff the
+                           proxy's state for rl is PreCheck, else (later phase / no task) at render (vm_dst_proxy m)
+   broker_example_stmt     a concrete reachable store with a migration in flight and the advertised lines of its source proxy *)
+From UM Require Proofs.TopoProofsBroker.
+
+Theorem C14_view_core_broker : TopoProofsBroker.view_core_broker_stmt.
+Proof. exact TopoProofsBroker.view_core_broker_holds. Qed.
+Check C14_view_core_broker : TopoProofsBroker.view_core_broker_stmt.
+Print Assumptions C14_view_core_broker.
+
+Theorem C14_unique_broker : TopoProofsBroker.unique_broker_stmt.
+Proof. exact TopoProofsBroker.unique_broker_holds. Qed.
+Check C14_unique_broker : TopoProofsBroker.unique_broker_stmt.
+Print Assumptions C14_unique_broker.
+
+Theorem C14_migrating_broker : TopoProofsBroker.migrating_broker_stmt.
+Proof. exact TopoProofsBroker.migrating_broker_holds. Qed.
+Check C14_migrating_broker : TopoProofsBroker.migrating_broker_stmt.
+Print Assumptions C14_migrating_broker.
+
+Example C14_broker_example : TopoProofsBroker.broker_example_stmt.
+Proof. exact TopoProofsBroker.broker_example_holds. Qed.
